@@ -1,0 +1,113 @@
+//! Verification hooks.
+//!
+//! Only compiled with `--cfg terohuttunen_proto_vulcan_verif`; without that flag nothing in
+//! this file, and none of the call sites, is part of the crate.
+//!
+//! * Step meter and budget: every `StreamEngine::step` call and every top-level drive of a
+//!   lazy stream by `Solver::{next, peek, trunc}` is counted per thread. When the number of
+//!   steps exceeds the budget the hook unwinds with the payload `StepBudgetExceeded`, so that a
+//!   starved or diverging search becomes a report instead of a hang. The budget never fabricates
+//!   an "end of stream".
+//! * Path counters: which arm of `Stream::{mplus, bind, mplus_dfs, bind_dfs}` was taken, which
+//!   `Lazy` variant each step consumed and which driver stepped a lazy stream.
+use crate::engine::Engine;
+use crate::stream::{Lazy, Stream};
+use crate::user::User;
+use std::cell::{Cell, RefCell};
+
+/// Panic payload raised when the step budget is exceeded.
+#[derive(Debug)]
+pub struct StepBudgetExceeded;
+
+pub const OP_MPLUS: usize = 0;
+pub const OP_BIND: usize = 1;
+pub const OP_MPLUS_DFS: usize = 2;
+pub const OP_BIND_DFS: usize = 3;
+
+pub const DRIVE_NEXT: usize = 0;
+pub const DRIVE_PEEK: usize = 1;
+pub const DRIVE_TRUNC: usize = 2;
+
+/// `alg[op][arm]`: arm 0 = Empty, 1 = Unit, 2 = Lazy, 3 = Cons.
+/// `lazy[k]`: MPlus, Bind, Pause, MPlusDFS, BindDFS, PauseDFS, Delay, Iterator.
+/// `drive[site]`: lazy streams stepped by next / peek / trunc.
+#[derive(Clone, Copy, Debug, Default, PartialEq, Eq)]
+pub struct Paths {
+    pub alg: [[u64; 4]; 4],
+    pub lazy: [u64; 8],
+    pub drive: [u64; 3],
+}
+
+thread_local! {
+    static STEPS: Cell<u64> = Cell::new(0);
+    static TOP: Cell<u64> = Cell::new(0);
+    static BUDGET: Cell<u64> = Cell::new(u64::MAX);
+    static PATHS: RefCell<Paths> = RefCell::new(Paths::default());
+}
+
+/// Reset the step counters of this thread and arm the budget.
+pub fn reset(budget: u64) {
+    STEPS.with(|s| s.set(0));
+    TOP.with(|s| s.set(0));
+    BUDGET.with(|b| b.set(budget));
+}
+
+/// Number of engine steps (including nested ones) since the last `reset`.
+pub fn steps() -> u64 {
+    STEPS.with(|s| s.get())
+}
+
+/// Number of lazy streams stepped by the solver drivers since the last `reset`.
+pub fn top_steps() -> u64 {
+    TOP.with(|s| s.get())
+}
+
+/// Return the path counters of this thread and clear them.
+pub fn take_paths() -> Paths {
+    PATHS.with(|p| std::mem::take(&mut *p.borrow_mut()))
+}
+
+fn arm<U: User, E: Engine<U>>(stream: &Stream<U, E>) -> usize {
+    match stream {
+        Stream::Empty => 0,
+        Stream::Unit(_) => 1,
+        Stream::Lazy(_) => 2,
+        Stream::Cons(_, _) => 3,
+    }
+}
+
+pub fn on_step<U: User, E: Engine<U>>(lazy: &Lazy<U, E>) {
+    let k = match lazy {
+        Lazy::MPlus(_, _) => 0,
+        Lazy::Bind(_, _) => 1,
+        Lazy::Pause(_, _) => 2,
+        Lazy::MPlusDFS(_, _) => 3,
+        Lazy::BindDFS(_, _) => 4,
+        Lazy::PauseDFS(_, _) => 5,
+        Lazy::Delay(_) => 6,
+        Lazy::Iterator(_) => 7,
+    };
+    PATHS.with(|p| p.borrow_mut().lazy[k] += 1);
+    let n = STEPS.with(|s| {
+        let n = s.get() + 1;
+        s.set(n);
+        n
+    });
+    if n > BUDGET.with(|b| b.get()) {
+        // Disarm, so that destructors running during the unwind cannot trip it again.
+        BUDGET.with(|b| b.set(u64::MAX));
+        std::panic::panic_any(StepBudgetExceeded);
+    }
+}
+
+pub fn on_alg<U: User, E: Engine<U>>(op: usize, stream: &Stream<U, E>) {
+    let a = arm(stream);
+    PATHS.with(|p| p.borrow_mut().alg[op][a] += 1);
+}
+
+pub fn on_drive<U: User, E: Engine<U>>(site: usize, stream: &Stream<U, E>) {
+    if let Stream::Lazy(_) = stream {
+        TOP.with(|s| s.set(s.get() + 1));
+        PATHS.with(|p| p.borrow_mut().drive[site] += 1);
+    }
+}
